@@ -9,7 +9,7 @@
 (*                                                                         *)
 (* Every clause yields [c |-> id, ok |-> holds, nv |-> antecedent held]    *)
 (***************************************************************************)
-EXTENDS Prov, FS, IO
+EXTENDS Prov, FS, IO, SpecJson
 
 Cl(id, nv, ok) == [c |-> id, ok |-> (~nv) \/ ok, nv |-> nv]
 
@@ -496,6 +496,37 @@ C16Clauses(step) ==
   THEN {C16_same_text(step), C16_same_doc(step), C16_read(step)} ELSE {}
 
 -----------------------------------------------------------------------------
+(* C01 / C10 (PROV-JSON) — round trip and independent reading                   *)
+(* step.src / step.back = [recs, bundles: Seq([id, recs])] projections of the   *)
+(* source and of the document read back; step.ast = lexed text                  *)
+DocBagEq(d1, d2) ==
+  /\ SameBag(ContentSeq(d1.recs), ContentSeq(d2.recs))
+  /\ Len(d1.bundles) = Len(d2.bundles)
+  /\ {d1.bundles[i].id : i \in 1..Len(d1.bundles)} = {d2.bundles[i].id : i \in 1..Len(d2.bundles)}
+  /\ \A i \in 1..Len(d1.bundles) : \A j \in 1..Len(d2.bundles) :
+        d1.bundles[i].id = d2.bundles[j].id =>
+          SameBag(ContentSeq(d1.bundles[i].recs), ContentSeq(d2.bundles[j].recs))
+(* the same for a reader result whose records already carry attribute SETS *)
+ReadBagEq(rd, d) ==
+  /\ SameBag(rd.recs, ContentSeq(d.recs))
+  /\ Len(rd.bundles) = Len(d.bundles)
+  /\ {rd.bundles[i].id : i \in 1..Len(rd.bundles)} = {d.bundles[i].id : i \in 1..Len(d.bundles)}
+  /\ \A i \in 1..Len(rd.bundles) : \A j \in 1..Len(d.bundles) :
+        rd.bundles[i].id = d.bundles[j].id => SameBag(rd.bundles[i].recs, ContentSeq(d.bundles[j].recs))
+IsRT(step, fmt) == step.op.op = "RT" /\ step.op.fmt = fmt
+
+C01_noexc(step) == Cl("C01_noexc", IsRT(step, "json"), step.exc = "none")
+C01_rt(step) ==
+  Cl("C01_rt", IsRT(step, "json") /\ step.exc = "none", DocBagEq(step.back, step.src))
+C10_wf_json(step) ==
+  Cl("C10_wf_json", IsRT(step, "json") /\ step.stage \in {"read", "done"}, WfJSON(step.ast))
+C10_read_json(step) ==
+  Cl("C10_read_json", IsRT(step, "json") /\ step.stage \in {"read", "done"} /\ WfJSON(step.ast),
+     ReadBagEq(SpecReadJSON(step.ast), step.src))
+C01Clauses(step) == IF IsRT(step, "json") THEN {C01_noexc(step), C01_rt(step)} ELSE {}
+C10Clauses(step) == IF IsRT(step, "json") THEN {C10_wf_json(step), C10_read_json(step)} ELSE {}
+
+-----------------------------------------------------------------------------
 (* Conformance (drift) clauses: the model's post-state against the logged   *)
 (* one.  A failure here never becomes a VIOLATION (DESIGN 2.5).             *)
 M_Names(msPost, mres, step) ==
@@ -518,7 +549,7 @@ M_Con(msPost, step) ==
         /\ ProjCon(msPost.con[h]).kind = step.post.con[h].kind
         /\ ProjCon(msPost.con[h]).id = step.post.con[h].id
         /\ msPost.con[h].bundles = step.post.con[h].bundles)
-M_Exc(r, step) == Cl("M_Exc", step.op.op # "Save", r.exc = step.exc)
+M_Exc(r, step) == Cl("M_Exc", step.op.op \notin {"Save", "RT", "Export"}, r.exc = step.exc)
 (* the recorded file-system events are a run of the protocol of FS.tla (repaired variant) *)
 (* the outcome class of every read is what the IO machine (repaired loop) predicts *)
 OutcomeClass(d, src) == IF d = src THEN "doc" ELSE IF d = "empty" THEN "empty"
